@@ -82,6 +82,7 @@ fn main() {
             let c = match engine.as_str() {
                 "c14" => c14::history(seed, idx),
                 "c14_drop_race" => c14::drop_race(seed, idx),
+                "c14_zst" => c14::zst_value(seed, idx),
                 "c15_sqlite" => c15::history(c15::Backend::Sqlite, seed, idx),
                 "c15_r2d2" => c15::history(c15::Backend::R2d2, seed, idx),
                 "c15_diesel" => c15::history(c15::Backend::Diesel, seed, idx),
@@ -115,6 +116,8 @@ fn main() {
             run_many(&args, &mut rep, "c14", sc(1500.0, 40_000.0), args.jobs, move |i| c14::history(seed, i));
             // the one window no history can aim at: the end of an abandoned closure against the drop of the wrapper
             // (400 trials per case; few cases at a time, the trials spin)
+            // a zero-sized value with a destructor (one at a time: its log is a static)
+            run_many(&args, &mut rep, "c14_zst", sc(60.0, 1500.0), 1, move |i| c14::zst_value(seed, i));
             run_many(&args, &mut rep, "c14_drop_race", sc(100.0, 2500.0), (args.jobs / 4).max(1), move |i| c14::drop_race(seed, i));
             std::process::exit(rep.finish(&args));
         }
